@@ -339,6 +339,76 @@ def check_deep_chain(rec: Rec):
     del root, nodes
 
 
+def check_bushy(rec: Rec):
+    """A tree with 17 + 17^2 + 17^3 = 5219 positions (fan-out 17, depth 3): more positions than any block or buffer size a
+    traversal might use internally (the small trees never fill one)."""
+    zoo.reset_registry()
+    fan = 17
+
+    def mk(depth):
+        if depth == 0:
+            return zoo.ZL(0)
+        return zoo.ZV(items=tuple(mk(depth - 1) for _ in range(fan)))
+
+    root = mk(3)
+
+    def pre(n, out):
+        for c in getattr(n, "items", ()):
+            out.append(c)
+            pre(c, out)
+        return out
+
+    def post(n, out):
+        for c in getattr(n, "items", ()):
+            post(c, out)
+            out.append(c)
+        return out
+
+    def level(n):
+        out, q = [], [n]
+        while q:
+            nxt = []
+            for x in q:
+                for c in getattr(x, "items", ()):
+                    out.append(c)
+                    nxt.append(c)
+            q = nxt
+        return out
+
+    P, Q, L = pre(root, []), post(root, []), level(root)
+    pruned = {id(P[1]), id(P[400]), id(P[-20])}
+    pnode = {id(n): n for n in P}
+
+    def below(seq):
+        """positions of seq that are not strictly below a pruned node"""
+        dead = set()
+        for i in pruned:
+            for c in pre(pnode[i], []):
+                dead.add(id(c))
+        return [n for n in seq if id(n) not in dead]
+
+    third = {id(n) for k, n in enumerate(P) if k % 3 == 0}
+    case = {"tree": f"fan-out {fan}, depth 3 ({len(P)} positions)", "share": None, "route": "bushy"}
+    runs = [
+        ("dfs", lambda: root.dfs(), P), ("dfs-bu", lambda: root.dfs(bottom_up=True), Q), ("bfs", lambda: root.bfs(), L),
+        ("dfs-filtered", lambda: root.dfs(filter=FalsyPredicate(lambda i: id(i.node) in third)), [n for n in P if id(n) in third]),
+        ("dfs-bu-filtered", lambda: root.dfs(filter=FalsyPredicate(lambda i: id(i.node) in third), bottom_up=True), [n for n in Q if id(n) in third]),
+        ("bfs-filtered", lambda: root.bfs(filter=FalsyPredicate(lambda i: id(i.node) in third)), [n for n in L if id(n) in third]),
+        ("dfs-pruned", lambda: root.dfs(prune=FalsyPredicate(lambda i: id(i.node) in pruned)), below(P)),
+        ("dfs-bu-pruned", lambda: root.dfs(prune=FalsyPredicate(lambda i: id(i.node) in pruned), bottom_up=True), below(Q)),
+        ("bfs-pruned", lambda: root.bfs(prune=FalsyPredicate(lambda i: id(i.node) in pruned)), below(L)),
+        ("gather", lambda: ((n, None) for n in root.gather(zoo.ZL)), [n for n in P if isinstance(n, zoo.ZL)]),
+    ]
+    for name, mkgen, exp in runs:
+        rec.count("transitions"); rec.count("traces"); rec.count("evaluations"); rec.count("states")
+        got = [x.node if hasattr(x, "node") else x[0] for x in mkgen()]
+        if len(got) != len(exp) or any(a is not b for a, b in zip(got, exp)):
+            first = next((k for k, (a, b) in enumerate(zip(got, exp)) if a is not b), min(len(got), len(exp)))
+            rec.violation("C05|bushy|sequence", dict(case, traversal=name), f"{name}: {len(got)} positions yielded, {len(exp)} expected; first difference at position {first}")
+        rec.outcome(f"bushy:{name}")
+    del root, P, Q, L, pnode
+
+
 def run_shard(cfg):
     rec = Rec(cfg)
     # configuration dimension: every third shard runs with runtime type checking on (all inputs are well typed,
@@ -359,6 +429,8 @@ def run_shard(cfg):
             check_tree(U, d, None, rec, light=False)
     if cfg["k"] == 11 % cfg["of"]:
         check_deep_chain(rec)
+    if cfg["k"] == 13 % cfg["of"]:
+        check_bushy(rec)
     for j, d in enumerate(huge_trees()):
         if (j + 7) % cfg["of"] == cfg["k"]:
             rec.rank = 2 * 10**9 + j
@@ -390,6 +462,9 @@ def replay(case, cfg):
         share = {tuple(tuple(s) for s in k): tuple(tuple(s) for s in v) for k, v in case["share"]}
     if case.get("route") == "deep-chain":
         check_deep_chain(rec)
+        return rec.result()["violations"]
+    if case.get("route") == "bushy":
+        check_bushy(rec)
         return rec.result()["violations"]
     check_tree(U, case["tree"], share, rec, route=case.get("route", "direct"))
     return rec.result()["violations"]
